@@ -96,13 +96,26 @@ func init() {
 			return out
 		},
 		"Choose": func(fr *frame, a []value) value {
+			// an unconstrained n-way choice: enumerated by the decision vector, no solver needed
 			r := fr.i.run
 			n := int(r.concreteInt(a[1]))
 			if n <= 0 {
 				panic(runAbort{"infeasible"})
 			}
-			t := r.newNondet(rtStr(a[0]), SInt, big.NewInt(0), big.NewInt(int64(n-1)))
-			return int(r.concretize(t).Int64())
+			name := r.nondetName(rtStr(a[0]))
+			var idx int
+			if r.concrete != nil {
+				if v, ok := r.concrete[name]; ok {
+					fmt.Sscanf(v, "%d", &idx)
+				}
+				if idx < 0 || idx >= n {
+					idx = 0
+				}
+			} else {
+				idx = r.choose('c', n)
+			}
+			r.nondets = append(r.nondets, &NondetInfo{Name: name, Sort: "choice", Lo: "0", Hi: fmt.Sprint(n - 1), term: r.tc.Int64(int64(idx))})
+			return idx
 		},
 		"Concrete": func(fr *frame, a []value) value {
 			return fr.i.run.concreteInt(a[0])
